@@ -114,6 +114,6 @@ example : byteswapNoRepeatPastEnd (natToBits 24 0x010203) (.int 2) none none fal
     Alg.byteswap (natToBits 24 0x010203) (.int 2) none none false = .ok (1, natToBits 24 0x020103) := by decide
 example : Alg.byteswap (natToBits 40 0x0102030405) (.str "hb") none none true = .ok (1, natToBits 40 0x0201030405) := by decide
 example : Alg.byteswap (natToBits 40 0x0102030405) (.sizes [2, 0, 1]) (some 4) (some 36) true =
-    .ok (1, natToBits 40 0x0302010405) := by decide
+    .ok (1, natToBits 40 0x0201030405) := by decide
 
 end BM.C03
